@@ -577,9 +577,7 @@ class AndNotMatcher(BiMatcher):
         self._find_first()
 
     def _find_first(self):
-        if (self.a.is_active()
-            and self.b.is_active()
-            and self.a.id() == self.b.id()):
+        if self.a.is_active() and self.b.is_active():
             self._find_next()
 
     def is_active(self):
